@@ -3,7 +3,7 @@
 WT=$1; shift
 cd /verif
 for c in "$@"; do
-  out=$(KV_REPO=$WT VERIF_SEED=${VERIF_SEED:-0} timeout ${TRY_TIMEOUT:-900} ./run check $c --tier ${TIER:-quick} 2>&1); rc=$?
+  out=$(KV_OUT=/tmp/kvout/try KV_REPO=$WT VERIF_SEED=${VERIF_SEED:-0} timeout ${TRY_TIMEOUT:-900} ./run check $c --tier ${TIER:-quick} 2>&1); rc=$?
   echo "--- $c rc=$rc"; echo "$out" | grep -E "^VIOLATION|HARNESS|Traceback|^\[C" | cut -c1-230 | sort | uniq -c | sort -rn | head -${TRY_LINES:-6}
 done
-git -C /verif checkout -- evidence 2>/dev/null
+true
